@@ -16,7 +16,8 @@ func init() { registry["C13"] = checkC13 }
 func requestedURLLeavesOK(m *hModel, v ssa.Value) (bool, string) {
 	allowed := map[string]bool{"GetScheme": true, "GetHost": true, "GetPath": true, "GetQuery": true}
 	seen := map[string]bool{}
-	for _, l := range Leaves(v, leafOpts{}) {
+	P := m.R.P
+	for _, l := range LeavesInl(v, leafOpts{}, 2, nil) {
 		if s, isC := constString(l); isC {
 			if s == "://" || s == "?" {
 				continue
@@ -28,7 +29,8 @@ func requestedURLLeavesOK(m *hModel, v ssa.Value) (bool, string) {
 			return false, "return URL contains " + descDepth(l, 3)
 		}
 		name := call.Common().StaticCallee().Name()
-		if !allowed[name] || !strings.HasSuffix(funcID(calleeOf(call).Obj), "AttributeContext_HttpRequest."+name) || resolveCell(stripConv(call.Common().Args[0])) != ssa.Value(m.RedirHTTP) {
+		recvOK := originsAre(P, call.Common().Args[0], m.RedirHTTP, 3)
+		if !allowed[name] || !strings.HasSuffix(funcID(calleeOf(call).Obj), "AttributeContext_HttpRequest."+name) || !recvOK {
 			return false, "return URL contains " + descDepth(l, 3) + ", which is not scheme/host/path/query of the current request"
 		}
 		seen[name] = true
@@ -268,60 +270,79 @@ func checkC13(c *Check) {
 				"the redirect answer was created by the deny constructor (standard headers present)", "a redirect is written onto "+descDepth(d, 2)+", which does not carry the no-cache headers")
 		}
 	}
-	// direct location appends (callback)
-	for _, fn := range R.HandlerFuncs {
-		if fn == m.LocationWriter.Fn {
+	// direct location appends (callback): header sites with key location resolved outside the location writer
+	for _, hs := range headerSites(P, R) {
+		if !strings.EqualFold(hs.KeyConst, "location") || hs.Fn == m.LocationWriter.Fn {
 			continue
 		}
-		for _, b := range fn.Blocks {
-			for _, ins := range b.Instrs {
-				al, ok := ins.(*ssa.Alloc)
-				if !ok || typeID(al.Type()) != pkgEnvoyCore+".HeaderValue" {
+		fn := hs.Fn
+		nLoc++
+		var built ssa.Value
+		if v, ok := hs.At.(ssa.Value); ok {
+			built = v
+		}
+		okDeny := false
+		for _, b2 := range fn.Blocks {
+			for _, i2 := range b2.Instrs {
+				st, isS := i2.(*ssa.Store)
+				if !isS {
 					continue
 				}
-				isLoc := false
-				for _, v := range structFieldStores(al)["Key"] {
-					if s, isC := constString(v); isC && strings.EqualFold(s, "location") {
-						isLoc = true
-					}
-				}
-				if !isLoc {
+				fa, isF := st.Addr.(*ssa.FieldAddr)
+				if !isF || fieldAddrID(fa) != idDenied+".Headers" {
 					continue
 				}
-				nLoc++
-				// find the deny whose Headers field receives the append containing this header
-				okDeny := false
-				for _, b2 := range fn.Blocks {
-					for _, i2 := range b2.Instrs {
-						st, isS := i2.(*ssa.Store)
-						if !isS {
-							continue
-						}
-						fa, isF := st.Addr.(*ssa.FieldAddr)
-						if !isF || fieldAddrID(fa) != idDenied+".Headers" {
-							continue
-						}
-						if !dataDeps(st.Val)[al] {
-							continue
-						}
-						dc, _, isC := asCall(resolveCell(stripConv(fa.X)))
-						if isC && dc.Common().StaticCallee() == m.NewDeny {
-							// and the append keeps the existing headers
-							keeps := false
-							for d := range dataDeps(st.Val) {
-								if base, f, okf := fieldLoad(d); okf && f != nil && f.Name() == "Headers" && sameVal(base, fa.X) {
-									keeps = true
-								}
-							}
-							okDeny = keeps
+				if built == nil || !dataDeps(st.Val)[built] {
+					continue
+				}
+				dc, _, isC := asCall(resolveCell(stripConv(fa.X)))
+				if isC && dc.Common().StaticCallee() == m.NewDeny {
+					keeps := false
+					for d := range dataDeps(st.Val) {
+						if base, f, okf := fieldLoad(d); okf && f != nil && f.Name() == "Headers" && sameVal(base, fa.X) {
+							keeps = true
 						}
 					}
+					okDeny = keeps
 				}
-				c.Obl(okDeny, "C13.R4", "redirect-deny/direct/"+fnKey(fn), P.Pos(instrPos(al)), "location appended to the headers of a deny-constructor response (standard headers kept)",
-					"a location header is added to a response that does not keep the deny constructor's no-cache headers")
 			}
 		}
+		c.Obl(okDeny, "C13.R4", "redirect-deny/direct/"+fnKey(fn), P.Pos(instrPos(hs.At)), "location appended to the headers of a deny-constructor response (standard headers kept)",
+			"a location header is added to a response that does not keep the deny constructor's no-cache headers")
 	}
 	c.Obl(nLoc >= 3, "C13.R4", "redirect-count", "-", fmt.Sprintf("%d redirect sites (login, logout, callback)", nLoc), fmt.Sprintf("only %d redirect sites found (floor 3)", nLoc))
 	_ = token.ADD
+}
+
+
+// originsAre: every origin of v is the value want; parameters of own helper functions are followed to
+// the arguments at all their call sites (want itself may be a parameter and is not followed further).
+func originsAre(P *Program, v ssa.Value, want ssa.Value, depth int) bool {
+	for _, l := range Leaves(v, leafOpts{noConcat: true}) {
+		l = resolveCell(stripConv(l))
+		if l == want {
+			continue
+		}
+		p, isP := l.(*ssa.Parameter)
+		if !isP || depth == 0 {
+			return false
+		}
+		fn := p.Parent()
+		idx := -1
+		for i, q := range fn.Params {
+			if q == p {
+				idx = i
+			}
+		}
+		callers := P.CallersOf(fn)
+		if idx < 0 || len(callers) == 0 {
+			return false
+		}
+		for _, c := range callers {
+			if idx >= len(c.Common().Args) || !originsAre(P, c.Common().Args[idx], want, depth-1) {
+				return false
+			}
+		}
+	}
+	return true
 }
